@@ -277,9 +277,9 @@ func (st *c08State) aggFormula(r *Run, tree *c08Node) {
 			}
 		}
 	}
-	must(st.f.SetCellFormula("Sheet1", c08Main, text))
-	raw := c08Raw(st.f, "Sheet1", c08Main)
-	res, errs, pan := c08Public(st.f, "Sheet1", c08Main)
+	must(st.f.SetCellFormula(st.main(), c08Main, text))
+	raw := c08Raw(st.f, st.main(), c08Main)
+	res, errs, pan := c08Public(st.f, st.main(), c08Main)
 	sig, leafDesc := "", ""
 	shadow := map[*c08Node]string{}
 	for _, lf := range leaves {
@@ -299,12 +299,12 @@ func (st *c08State) aggFormula(r *Run, tree *c08Node) {
 		r.Stat("agg:fn:" + lf.Op)
 		r.Stat(fmt.Sprintf("agg:cells<=%d", 4*((len(lf.Keys)+3)/4)))
 	}
-	evS := &c08Eval{env: st.env, taint: st.taint, agg: func(n *c08Node) c08Val {
+	evS := &c08Eval{env: st.env, taint: st.taint, names: st.resolveName, agg: func(n *c08Node) c08Val {
 		_, spec := st.aggCells(n)
 		return c08AggSpec(n.Op, spec)
 	}}
 	want := c08Top(evS.eval(tree))
-	evP := &c08Eval{env: st.env, taint: st.taint, agg: func(n *c08Node) c08Val { return c08ImageVal(shadow[n]) }}
+	evP := &c08Eval{env: st.env, taint: st.taint, names: st.resolveName, agg: func(n *c08Node) c08Val { return c08ImageVal(shadow[n]) }}
 	pred := c08Top(evP.eval(tree))
 	var tb strings.Builder
 	c08TreeEnc(tree, &tb)
@@ -314,6 +314,9 @@ func (st *c08State) aggFormula(r *Run, tree *c08Node) {
 		var ks []string
 		for _, k := range tree.Keys {
 			ks = append(ks, hx(k))
+		}
+		if st.isDefName(tree.Spell) { // a defined range name: the model does the lookup
+			ks = []string{"d:" + hx(tree.Spell) + ":" + hx(st.main())}
 		}
 		op = "agg " + tree.Op + " " + strings.Join(ks, " ") + " | " + tb.String()
 		ln = r.Op(op, raw+" S="+c08SpecStr(c08AggSpec(tree.Op, func() []c08Val { _, s := st.aggCells(tree); return s }())))
@@ -343,6 +346,10 @@ func (st *c08State) aggFormula(r *Run, tree *c08Node) {
 		}
 	case !predicted:
 		sig += ":unpredicted"
+	}
+	if len(st.defs) > 0 && strings.HasSuffix(sig, ":unexplained") {
+		sig = "defname:resolution"
+		leafDesc = "on " + st.main() + ", names " + st.showDefs() + "; " + leafDesc
 	}
 	r.Fail(sig, fmt.Sprintf("=%s [%s]: CalcCellValue gives %q err=%q, Excel's rules give %s (known behaviour would give %s)",
 		text, leafDesc, res, errs, c08Show(want), c08Show(pred)), ln, replay)
